@@ -202,7 +202,7 @@ class KSem:
 # ------------------------------------------------------------------------------------------
 class Sched:
     def __init__(self, prefix=(), kinds=("P", "T", "K"), kill_code=-9, horizon=50_000,
-                 pipe_cap=65536, track_states=True, kill_filter=None):
+                 pipe_cap=65536, track_states=True, kill_filter=None, starve=None):
         self.threads = []
         self.procs = {}
         self.pipes = []
@@ -215,6 +215,7 @@ class Sched:
         self.kinds = set(kinds)
         self.kill_code = kill_code
         self.kill_filter = kill_filter
+        self.starve = starve      # scheduling policy: threads whose name starts with this run last
         self.horizon = horizon
         self.pipe_cap = pipe_cap
         self.nchoice = 0
@@ -263,7 +264,17 @@ class Sched:
 
     def alternatives(self, me):
         en = [t for t in self.threads if self.enabled(t)]
-        en.sort(key=lambda t: (0 if t is me else 1, t.since, t.id))
+        st = self.starve
+        if st is None:
+            en.sort(key=lambda t: (0 if t is me else 1, t.since, t.id))
+        elif st.startswith("eager:"):
+            # priority policy: the named thread runs whenever it is enabled
+            pre = st[6:]
+            en.sort(key=lambda t: (0 if t.full.startswith(pre) else 1, 0 if t is me else 1,
+                                   t.since, t.id))
+        else:
+            en.sort(key=lambda t: (0 if t is me else 1, 1 if t.full.startswith(st) else 0,
+                                   t.since, t.id))
         alts = [("P", t, "run:" + t.full) for t in en]
         if en:
             if "T" in self.kinds:
